@@ -61,7 +61,8 @@ Definition rtx_fin_word (pv : N) : N * N :=
   | _ => (0, 0)
   end.
 
-Definition rtx_nbytes (v : N) : N := match v with 15 => 4 | 7 => 3 | 3 => 2 | 1 => 1 | _ => 0 end.
+Definition rtx_nbytes (v : N) : N :=
+  if v =? 15 then 4 else if v =? 7 then 3 else if v =? 3 then 2 else if v =? 1 then 1 else 0.
 
 Section Tx.
   Variable U : crc_units.
@@ -152,18 +153,25 @@ Section Wire.
     [RTX_HPSTART; (p_dw0 p, 0); (p_dw1 p, 0); (p_dw2 p, 0);
      (rtx_dw3 (h16 [p_dw0 p; p_dw1 p; p_dw2 p]) (p_lf p), 0)].
 
-  (* symbols (byte, ctrl bit) -> words, zero-padded to a word boundary *)
-  Fixpoint sym_words (fuel : nat) (syms : list (N * bool)) : list (N * N) :=
-    match fuel with
-    | O => []
-    | S f =>
-        match syms with
-        | [] => []
-        | _ => let g := firstn 4 syms in
-               (drx_le (map fst g), bits2N (map snd g)) :: sym_words f (skipn 4 syms)
+  (* symbols (byte, ctrl bit) -> words of four, the last one zero-padded *)
+  Definition sym_word (g : list (N * bool)) : N * N := (drx_le (map fst g), bits2N (map snd g)).
+  Fixpoint words_of_syms (syms : list (N * bool)) : list (N * N) :=
+    match syms with
+    | [] => []
+    | a :: t1 =>
+      match t1 with
+      | [] => [sym_word [a]]
+      | b :: t2 =>
+        match t2 with
+        | [] => [sym_word [a; b]]
+        | c :: t3 =>
+          match t3 with
+          | [] => [sym_word [a; b; c]]
+          | d :: t4 => sym_word [a; b; c; d] :: words_of_syms t4
+          end
         end
+      end
     end.
-  Definition words_of_syms (syms : list (N * bool)) : list (N * N) := sym_words (length syms) syms.
 
   (* the Data Packet Payload: payload bytes, CRC-32 right after the last byte, END END END EPF, zero padding *)
   Definition wire_dpp (payload : list N) : list (N * N) :=
@@ -204,6 +212,33 @@ Fixpoint rtx_loop (U : crc_units) (p : rtx_pkt) (s : rtx_state) (bs : list (N * 
   | r :: t =>
       let (s', o) := rtx_next U s (rtx_env_in p gen bs r) in
       o :: rtx_loop U p s' (if x_dready o then tl bs else bs) false t
+  end.
+
+(* what is observed per cycle: source.valid, the word (data, ctrl), done *)
+Definition rtx_obs := (bool * (N * N) * bool)%type.
+Definition rtx_obs_of (o : rtx_out) : rtx_obs := (x_valid o, (x_data o, x_ctrl o), x_done o).
+Definition rtx_idle_obs : rtx_obs := (false, (0, 0), false).
+
+(* the specification of the source side: the words `ws` are presented one after the other, each held until
+   source.ready; `done` accompanies the acceptance of the last word; afterwards the unit is idle *)
+Fixpoint wire_run (ws : list (N * N)) (rdys : list bool) : list rtx_obs :=
+  match rdys with
+  | [] => []
+  | r :: t =>
+      match ws with
+      | [] => rtx_idle_obs :: wire_run [] t
+      | w :: ws' => (true, w, r && match ws' with [] => true | _ => false end) :: wire_run (if r then ws' else ws) t
+      end
+  end.
+
+(* remaining data_sink beats at the end of a closed-loop run *)
+Fixpoint rtx_loop_rest (U : crc_units) (p : rtx_pkt) (s : rtx_state) (bs : list (N * N)) (gen : bool) (rdys : list bool)
+  : list (N * N) :=
+  match rdys with
+  | [] => bs
+  | r :: t =>
+      let (s', o) := rtx_next U s (rtx_env_in p gen bs r) in
+      rtx_loop_rest U p s' (if x_dready o then tl bs else bs) false t
   end.
 
 (* observations on an output history *)
